@@ -141,6 +141,8 @@ def build(p, code, lab):
         return None
     if lab == "pdag":
         return ch, und, _g.pdag_matrix(p, ch, und)
+    if lab == "pdagF":
+        return ch, und, np.asfortranarray(_g.pdag_matrix(p, ch, und))
     if lab == "pdagf":
         return ch, und, _g.pdag_matrix(p, ch, und).astype(float)
     if any(und):
@@ -166,7 +168,7 @@ def run_unit(unit):
                     acc.fail("wide", {"k": k, "lab": lab}, sig, msg)
         return acc.out()
     p = unit["p"]
-    labs = ("pdag", "pdagf") if unit["stage"] == "pdag" else ("neg", "cancel", "generic", "int")
+    labs = ("pdag", "pdagf", "pdagF") if unit["stage"] == "pdag" else ("neg", "cancel", "generic", "int")
     if p > 5:
         labs = ("pdag",)
     codes = unit["codes"] if "codes" in unit else range(unit["lo"], unit["hi"])
